@@ -4,13 +4,14 @@
 use crate::common::*;
 use crate::gen;
 use curve25519_dalek::scalar::Scalar;
-use monero::blockdata::block::Block;
-use monero::blockdata::transaction::{Transaction, TransactionPrefix, TxIn, TxOut};
+use curve25519_dalek::edwards::CompressedEdwardsY;
+use monero::blockdata::block::{Block, BlockHeader};
+use monero::blockdata::transaction::{ExtraField, RawExtraField, SubField, Transaction, TransactionPrefix, TxIn, TxOut};
 use monero::consensus::encode::{deserialize, serialize, VarInt};
 use monero::cryptonote::hash::{Hash, Hash8};
 use monero::cryptonote::subaddress::Index;
 use monero::util::address::PaymentId;
-use monero::util::ringct::{EcdhInfo, Key, RctSig, RctType};
+use monero::util::ringct::{Bulletproof, BulletproofPlus, Clsag, CtKey, EcdhInfo, Key, Key64, MgSig, RangeSig, RctSig, RctSigBase, RctSigPrunable, RctType, Signature};
 use monero::{Address, Amount, Network, PrivateKey, PublicKey, SignedAmount};
 use serde::{de::DeserializeOwned, Deserialize, Serialize};
 use std::str::FromStr;
@@ -51,6 +52,47 @@ fn with_rt<T: Serialize + DeserializeOwned + PartialEq>(v: &T) -> String {
 }
 fn de<T: Serialize + DeserializeOwned>(s: &str) -> String {
     match serde_json::from_str::<T>(s) { Ok(v) => format!("ok {}", serde_json::to_string(&v).unwrap()), Err(_) => "err".into() }
+}
+/// the other entry points of serde_json: `from_reader` (non-borrowing), `to_value` -> `from_value` (owned strings, no text),
+/// `from_slice`; each compared with the value
+fn with_rd<T: Serialize + DeserializeOwned + PartialEq>(v: &T) -> String {
+    let s = match serde_json::to_string(v) { Ok(s) => s, Err(_) => return "ser-err".into() };
+    let c = |r: Result<T, serde_json::Error>| match r { Ok(y) => if y == *v { "eq" } else { "ne" }, Err(_) => "err" };
+    let rd = c(serde_json::from_reader::<_, T>(s.as_bytes()));
+    let val = match serde_json::to_value(v) { Ok(x) => c(serde_json::from_value::<T>(x)), Err(_) => "ser-err" };
+    let sl = c(serde_json::from_slice::<T>(s.as_bytes()));
+    format!("{} rd={} val={} slice={}", s, rd, val, sl)
+}
+/// `SubField` values in the token form `P:<32 bytes>` (TxPublicKey) `N:<bytes>` (Nonce) `D:<u8>` (Padding) `M:<u64>:<32 bytes>`
+/// (MergeMining) `A:<32 bytes>,…` (AdditionalPublickKey) `G:<bytes>` (MysteriousMinerGate), joined by `;` (`-` = no sub-field).
+/// Keys are ANY 32 bytes: `PublicKey { point }` is built directly, as the derived `Deserialize` does.
+fn subs_of(t: &str) -> Option<Vec<SubField>> {
+    if t == "-" { return Some(vec![]); }
+    let bytes = |h: &str| if h.is_empty() { Some(vec![]) } else { hex::decode(h).ok() };
+    let pk = |h: &str| { let b = hex::decode(h).ok()?; if b.len() == 32 { let mut a = [0u8; 32]; a.copy_from_slice(&b); Some(PublicKey { point: CompressedEdwardsY(a) }) } else { None } };
+    t.split(';').map(|x| {
+        let p: Vec<&str> = x.split(':').collect();
+        Some(match p.as_slice() {
+            ["P", h] => SubField::TxPublicKey(pk(h)?),
+            ["N", h] => SubField::Nonce(bytes(h)?),
+            ["D", n] => SubField::Padding(n.parse().ok()?),
+            ["M", n, h] => { let b = hex::decode(h).ok()?; if b.len() != 32 { return None; } SubField::MergeMining(VarInt(n.parse().ok()?), Hash::from_slice(&b)) }
+            ["A", hs] => SubField::AdditionalPublickKey(if hs.is_empty() { vec![] } else { hs.split(',').map(pk).collect::<Option<Vec<_>>>()? }),
+            ["G", h] => SubField::MysteriousMinerGate(bytes(h)?),
+            _ => return None })
+    }).collect()
+}
+fn subs_to(fs: &[SubField]) -> String {
+    if fs.is_empty() { return "-".into(); }
+    let hx = |b: &[u8]| if b.is_empty() { String::new() } else { hex(b) };
+    fs.iter().map(|f| match f {
+        SubField::TxPublicKey(k) => format!("P:{}", hex(k.as_bytes())),
+        SubField::Nonce(n) => format!("N:{}", hx(n)),
+        SubField::Padding(n) => format!("D:{}", n),
+        SubField::MergeMining(d, h) => format!("M:{}:{}", d.0, hex(&h.0)),
+        SubField::AdditionalPublickKey(ks) => format!("A:{}", ks.iter().map(|k| hex(k.as_bytes())).collect::<Vec<_>>().join(",")),
+        SubField::MysteriousMinerGate(d) => format!("G:{}", hx(d)),
+    }).collect::<Vec<_>>().join(";")
 }
 fn au(t: &str) -> Option<Amount> { t.parse::<u64>().ok().map(Amount::from_pico) }
 fn ai(t: &str) -> Option<SignedAmount> { t.parse::<i64>().ok().map(SignedAmount::from_pico) }
@@ -114,6 +156,11 @@ pub fn exec(t: &[&str]) -> Option<String> {
         ["c19_json", "index", a, b] => Some(with_rt(&Index { major: a.parse().ok()?, minor: b.parse().ok()? })),
         ["c19_json", "varint", a] => Some(with_rt(&VarInt(a.parse().ok()?))),
         ["c19_json", "rcttype", a] => Some(with_rt(gen::RCT_TYPES.get(a.parse::<usize>().ok()?)?)),
+        ["c19_json", "extra", t] => Some(match subs_of(t) { Some(fs) => with_rt(&ExtraField(fs)), None => "err".into() }),
+        ["c19_json_rd", "tx", h] => Some(match deserialize::<Transaction>(&unhex(h)) { Ok(v) => with_rd(&v), Err(_) => "err".into() }),
+        ["c19_json_rd", "block", h] => Some(match deserialize::<Block>(&unhex(h)) { Ok(v) => with_rd(&v), Err(_) => "err".into() }),
+        ["c19_json_rd", "prefix", h] => Some(match deserialize::<TransactionPrefix>(&unhex(h)) { Ok(v) => with_rd(&v), Err(_) => "err".into() }),
+        ["c19_json_rd", "extra", t] => Some(match subs_of(t) { Some(fs) => with_rd(&ExtraField(fs)), None => "err".into() }),
         ["c19_de", ty, h] => {
             let s = match utf8(h) { Ok(s) => s, Err(e) => return Some(e) };
             Some(match *ty {
@@ -121,6 +168,10 @@ pub fn exec(t: &[&str]) -> Option<String> {
                 "txin" => de::<TxIn>(&s), "txout" => de::<TxOut>(&s), "ecdh" => de::<EcdhInfo>(&s), "key" => de::<Key>(&s),
                 "hash" => de::<Hash>(&s), "hash8" => de::<Hash8>(&s), "index" => de::<Index>(&s), "varint" => de::<VarInt>(&s),
                 "rcttype" => de::<RctType>(&s), "rctsig" => de::<RctSig>(&s),
+                "extra" => de::<ExtraField>(&s), "subfield" => de::<SubField>(&s), "pubkey" => de::<PublicKey>(&s),
+                "key64" => de::<Key64>(&s), "rangesig" => de::<RangeSig>(&s), "header" => de::<BlockHeader>(&s), "base" => de::<RctSigBase>(&s),
+                "prunable" => de::<RctSigPrunable>(&s), "sig" => de::<Signature>(&s), "ctkey" => de::<CtKey>(&s), "bp" => de::<Bulletproof>(&s),
+                "bpp" => de::<BulletproofPlus>(&s), "mg" => de::<MgSig>(&s), "clsag" => de::<Clsag>(&s),
                 _ => return None })
         }
         ["c19_amount", enc, shape, ty, v @ ..] => amount_ser(enc, shape, ty, v),
@@ -134,6 +185,11 @@ pub fn exec(t: &[&str]) -> Option<String> {
     }
 }
 
+/// the position of a variant in `gen::RCT_TYPES`, by an EXHAUSTIVE match: a variant added to `RctType` stops the harness from
+/// building until the literal tables (here, gen.rs, `rctNames` of the model) are revisited
+fn rct_index(t: RctType) -> usize {
+    match t { RctType::Null => 0, RctType::Full => 1, RctType::Simple => 2, RctType::Bulletproof => 3, RctType::Bulletproof2 => 4, RctType::Clsag => 5, RctType::BulletproofPlus => 6 }
+}
 fn valid_key(rng: &mut Rng) -> PublicKey { PublicKey::from_private_key(&PrivateKey::from_scalar(Scalar::from_bytes_mod_order(rng.arr32()))) }
 fn h(s: &str) -> String { hex(s.as_bytes()) }
 
@@ -368,4 +424,242 @@ pub fn run(o: &mut Out, tier: &str, seed: u64) {
         for d in ds { let r = o.op(format!("c19_addr_de {}", h(&d)), false); if r.starts_with("ok") { o.nontrivial.insert(o.ops.last().unwrap().clone()); } o.stat(&format!("addr_de.{}", if r.starts_with("ok") { "ok" } else { "err" })); }
     }
     for d in ["null", "5", "\"\"", "\"4\"", "[]", "{}", "true", "\"not an address\"", "\"é\"", "\"\\ud83d\\ude00\"", "\"\\ud83d\""] { o.op(format!("c19_addr_de {}", h(d)), false); o.stat("addr_de.probe"); }
+    run_more(o, thorough, seed);
+}
+
+/// the values of the members of a top-level JSON object text, in the order they are written
+fn top_values(s: &str) -> Vec<String> {
+    let b = s.as_bytes();
+    if b.first() != Some(&b'{') || b.last() != Some(&b'}') { return vec![]; }
+    let (mut out, mut d, mut instr, mut esc, mut start, mut j) = (vec![], 0i32, false, false, None::<usize>, 1usize);
+    while j < b.len() - 1 {
+        let c = b[j];
+        if instr { if esc { esc = false; } else if c == b'\\' { esc = true; } else if c == b'"' { instr = false; } }
+        else if c == b'"' { instr = true; }
+        else if c == b'{' || c == b'[' { d += 1; }
+        else if c == b'}' || c == b']' { d -= 1; }
+        else if c == b':' && d == 0 && start.is_none() { start = Some(j + 1); }
+        else if c == b',' && d == 0 { if let Some(st) = start.take() { out.push(s[st..j].to_string()); } }
+        j += 1;
+    }
+    if let Some(st) = start { out.push(s[st..b.len() - 1].to_string()); }
+    out
+}
+/// a struct document in its positional (sequence) form, in DECLARED field order
+fn positional(s: &str) -> String { format!("[{}]", top_values(s).join(",")) }
+
+fn rand_subfield(rng: &mut Rng) -> SubField {
+    let pk = |rng: &mut Rng| PublicKey { point: CompressedEdwardsY(rng.arr32()) };   // any 32 bytes: what the type (and the derived Deserialize) admits
+    match rng.below(8) {
+        0 => SubField::TxPublicKey(if rng.chance(1, 2) { valid_key(rng) } else { pk(rng) }),
+        1 => { let n = *rng.pick(&[0usize, 1, 8, 9, 33, 255, 256]); SubField::Nonce(rng.bytes(n)) }
+        2 => SubField::Padding(*rng.pick(&[0u8, 1, 127, 128, 254, 255])),
+        3 => SubField::MergeMining(VarInt(rng.u64_boundary()), Hash(rng.arr32())),
+        4 => { let n = rng.below(4) as usize; SubField::AdditionalPublickKey((0..n).map(|_| pk(rng)).collect()) }
+        5 => { let n = *rng.pick(&[0usize, 1, 40, 300]); SubField::MysteriousMinerGate(rng.bytes(n)) }
+        6 => SubField::TxPublicKey(PublicKey { point: CompressedEdwardsY(*rng.pick(&[[0u8; 32], [255u8; 32]])) }),
+        _ => SubField::Padding(rng.byte()),
+    }
+}
+
+/// families added after the audit of C19: `ExtraField` / `SubField` / `PublicKey`; the other entry points of serde_json
+/// (`from_reader`, `to_value`/`from_value`, `from_slice`) on transactions, blocks, prefixes and extras; values of the Rust
+/// types that the consensus codec cannot produce (non-wire); deserialisers of the inner RingCT types with fixed probes and
+/// valid positional forms. Own random stream: the families above generate what they generated before.
+fn run_more(o: &mut Out, thorough: bool, seed: u64) {
+    let mut rng = Rng::new(seed ^ 0xc19_0002);
+    let ok_nt = |o: &mut Out, r: &str| if r.starts_with("ok") { let l = o.ops.last().unwrap().clone(); o.nontrivial.insert(l); };
+    let mut docs: Vec<(&'static str, String)> = Vec::new();
+
+    // ---- ExtraField / SubField / PublicKey (derived serde impls that no transaction document contains: `extra` is the raw bytes)
+    for i in 0..(if thorough { 200 } else { 36 }) {
+        let n = if i == 0 { 0 } else { rng.range(1, 4) as usize };
+        let fs: Vec<SubField> = (0..n).map(|_| rand_subfield(&mut rng)).collect();
+        let e = ExtraField(fs);
+        let js = serde_json::to_string(&e).unwrap();
+        o.direct(serde_json::from_str::<ExtraField>(&js).ok().as_ref() == Some(&e), "from_json(to_json(extra))==extra", js.clone(), "-".into(), "extra".into());
+        let r = o.op(format!("c19_json extra {}", subs_to(&e.0)), false);
+        if r.ends_with("rt=eq") && r.len() > 40 { let l = o.ops.last().unwrap().clone(); o.nontrivial.insert(l); }
+        o.direct(r.ends_with("rt=eq"), "extra field round trip", subs_to(&e.0), r.clone(), "rt=eq".into());
+        if i < 10 || thorough { let r = o.op(format!("c19_json_rd extra {}", subs_to(&e.0)), false);
+            o.direct(r.ends_with("rd=eq val=eq slice=eq"), "extra field through from_reader / from_value / from_slice", subs_to(&e.0), r.clone(), "rd=eq val=eq slice=eq".into()); }
+        for f in &e.0 { o.stat(&format!("extra.{}", match f { SubField::TxPublicKey(_) => "TxPublicKey", SubField::Nonce(_) => "Nonce", SubField::Padding(_) => "Padding", SubField::MergeMining(..) => "MergeMining", SubField::AdditionalPublickKey(_) => "AdditionalPublickKey", SubField::MysteriousMinerGate(_) => "MysteriousMinerGate" })); }
+        if docs.len() < 24 && js.len() < 6000 { docs.push(("extra", js));
+            if let Some(f) = e.0.first() { docs.push(("subfield", serde_json::to_string(f).unwrap())); } }
+    }
+    // sub-fields as the consensus parser returns them (valid points), from structured extras
+    for _ in 0..(if thorough { 40 } else { 8 }) {
+        let nout = rng.below(4) as usize;
+        let raw = RawExtraField(gen::structured_extra(&mut rng, nout));
+        let e = match ExtraField::try_parse(&raw) { Ok(e) => e, Err(e) => e };
+        let r = o.op(format!("c19_json extra {}", subs_to(&e.0)), false);
+        o.direct(r.ends_with("rt=eq"), "parsed extra field round trip", subs_to(&e.0), r.clone(), "rt=eq".into());
+        o.stat("extra.parsed");
+    }
+    { let k = valid_key(&mut rng); docs.push(("pubkey", serde_json::to_string(&k).unwrap()));
+      o.direct(serde_json::from_str::<PublicKey>(&serde_json::to_string(&k).unwrap()).ok() == Some(k), "public key round trip", hex(k.as_bytes()), "-".into(), "-".into()); }
+    let k32 = "[1,2,3,4,5,6,7,8,9,10,11,12,13,14,15,16,17,18,19,20,21,22,23,24,25,26,27,28,29,30,31,32]";
+    let probes: Vec<(&str, String)> = vec![
+        ("subfield", "\"Padding\"".into()), ("subfield", "{\"Padding\":5}".into()), ("subfield", "{\"Padding\":256}".into()), ("subfield", "{\"Padding\":-1}".into()), ("subfield", "{\"Padding\":null}".into()),
+        ("subfield", "{\"Padding\":[5]}".into()), ("subfield", "{\"Padding\":5,\"Nonce\":[]}".into()), ("subfield", "{\"padding\":5}".into()), ("subfield", "{}".into()), ("subfield", "[\"Padding\",5]".into()),
+        ("subfield", "{\"Nonce\":[]}".into()), ("subfield", "{\"Nonce\":[255,256]}".into()), ("subfield", "{\"Nonce\":\"00\"}".into()), ("subfield", "{\"MysteriousMinerGate\":[0,1]}".into()),
+        ("subfield", format!("{{\"MergeMining\":[7,{}]}}", k32)), ("subfield", format!("{{\"MergeMining\":[18446744073709551615,{}]}}", k32)), ("subfield", format!("{{\"MergeMining\":[18446744073709551616,{}]}}", k32)),
+        ("subfield", "{\"MergeMining\":[7]}".into()), ("subfield", format!("{{\"MergeMining\":[7,{},1]}}", k32)), ("subfield", format!("{{\"MergeMining\":{{\"0\":7,\"1\":{}}}}}", k32)), ("subfield", format!("{{\"MergeMining\":[{},7]}}", k32)),
+        ("subfield", format!("{{\"TxPublicKey\":{{\"point\":{}}}}}", k32)), ("subfield", format!("{{\"TxPublicKey\":[{}]}}", k32)), ("subfield", format!("{{\"TxPublicKey\":{}}}", k32)),
+        ("subfield", format!("{{\"TxPublicKey\":{{\"point\":{},\"x\":[[[1]]]}}}}", k32)), ("subfield", format!("{{\"TxPublicKey\":{{\"point\":{},\"point\":{}}}}}", k32, k32)),
+        ("subfield", "{\"AdditionalPublickKey\":[]}".into()), ("subfield", format!("{{\"AdditionalPublickKey\":[{{\"point\":{}}},[{}]]}}", k32, k32)), ("subfield", format!("{{\"AdditionalPublicKey\":[{{\"point\":{}}}]}}", k32)),
+        ("pubkey", format!("{{\"point\":{}}}", k32)), ("pubkey", format!("[{}]", k32)), ("pubkey", k32.to_string()), ("pubkey", format!("{{\"point\":{}}}", &k32.replace(",32]", "]"))), ("pubkey", format!("{{\"point\":{}}}", &k32.replace(",32]", ",32,33]"))),
+        ("pubkey", format!("{{\"point\":{}}}", &k32.replace(",32]", ",256]"))), ("pubkey", "{\"point\":\"0102\"}".into()), ("pubkey", "{}".into()),
+        // an invalid curve point is a value of the type: the derived impl does not validate
+        ("pubkey", "{\"point\":[2,0,0,0,0,0,0,0,0,0,0,0,0,0,0,0,0,0,0,0,0,0,0,0,0,0,0,0,0,0,0,0]}".into()),
+        ("extra", "[]".into()), ("extra", "[[]]".into()), ("extra", "{}".into()), ("extra", "null".into()), ("extra", "[{\"Padding\":1},{\"Padding\":2}]".into()), ("extra", "[{\"Padding\":1},\"Padding\"]".into()), ("extra", "[[{\"Padding\":1}]]".into()),
+    ];
+    for (ty, d) in probes.iter() { let r = o.op(format!("c19_de {} {}", ty, h(d)), false); ok_nt(o, &r); o.stat("de2.probe"); }
+
+    for (i, t) in gen::RCT_TYPES.iter().enumerate() {
+        o.direct(rct_index(*t) == i, "gen::RCT_TYPES lists the variants of RctType in declaration order", format!("{:?}", t), rct_index(*t).to_string(), i.to_string());
+        o.direct(serde_json::to_string(t).ok() == Some(format!("\"{:?}\"", t)), "a unit variant is written as its identifier", format!("{:?}", t), serde_json::to_string(t).unwrap_or_default(), format!("\"{:?}\"", t));
+    }
+    // ---- transactions of every RingCT type (v2) and two v1; blocks
+    let mut forced: Vec<Transaction> = Vec::new();
+    for i in 0..9 {
+        let mut s = gen::shape(&mut rng);
+        if i < 7 { s.rct = gen::RCT_TYPES[i]; s.version = 2; s.nin = 1 + i % 2; s.nout = 1 + i % 2; s.all_coinbase = false; s.coinbase_first = false; s.nbp = 1; if !thorough && s.nout > 1 && matches!(s.rct, RctType::Full | RctType::Simple) { s.nout = 1; } }
+        else { s.version = 1; s.nin = 2; s.all_coinbase = false; s.coinbase_first = false; }
+        forced.push(gen::tx_of(&mut rng, &s));
+    }
+    // the other entry points of serde_json on whole documents
+    for (i, tx) in forced.iter().enumerate() {
+        let r = o.op(format!("c19_json_rd tx {}", hex(&serialize(tx))), false);
+        o.direct(r.ends_with("rd=eq val=eq slice=eq"), "tx through from_reader / from_value / from_slice", hex(&serialize(tx)), r.chars().rev().take(30).collect::<String>().chars().rev().collect(), "rd=eq val=eq slice=eq".into());
+        if r.ends_with("rd=eq val=eq slice=eq") { let l = o.ops.last().unwrap().clone(); o.nontrivial.insert(l); }
+        let r = o.op(format!("c19_json_rd prefix {}", hex(&serialize(&tx.prefix))), false);
+        o.direct(r.ends_with("rd=eq val=eq slice=eq"), "prefix through from_reader / from_value / from_slice", hex(&serialize(&tx.prefix)), "-".into(), "rd=eq val=eq slice=eq".into());
+        o.stat(&format!("json_rd.tx.{}", i));
+    }
+    for _ in 0..(if thorough { 12 } else { 3 }) {
+        let nh = rng.below(3) as usize; let b = gen::block(&mut rng, nh);
+        let r = o.op(format!("c19_json_rd block {}", hex(&serialize(&b))), false);
+        o.direct(r.ends_with("rd=eq val=eq slice=eq"), "block through from_reader / from_value / from_slice", hex(&serialize(&b)), "-".into(), "rd=eq val=eq slice=eq".into());
+        o.stat("json_rd.block");
+        if docs.iter().filter(|d| d.0 == "header").count() < 2 { docs.push(("header", serde_json::to_string(&b.header).unwrap())); }
+    }
+
+    // ---- values of the Rust types that `consensus::deserialize` never returns (the theorems cover them; the wire generators cannot reach them)
+    fn nonwire<T: Serialize + DeserializeOwned + PartialEq>(o: &mut Out, ty: &str, what: &str, v: &T) {
+        let js = serde_json::to_string(v).unwrap();
+        let back = serde_json::from_str::<T>(&js);
+        o.direct(back.as_ref().ok() == Some(v), &format!("from_json(to_json(x))==x for a non-wire value: {}", what), format!("c19_de {} {}", ty, hex(js.as_bytes())), format!("{:?}", back.is_ok()), "equal".into());
+        o.direct(serde_json::from_reader::<_, T>(js.as_bytes()).ok().as_ref() == Some(v), &format!("from_reader, non-wire value: {}", what), format!("c19_de {} {}", ty, hex(js.as_bytes())), "-".into(), "equal".into());
+        o.direct(serde_json::to_value(v).ok().and_then(|x| serde_json::from_value::<T>(x).ok()).as_ref() == Some(v), &format!("from_value(to_value), non-wire value: {}", what), format!("c19_de {} {}", ty, hex(js.as_bytes())), "-".into(), "equal".into());
+        let r = o.op(format!("c19_de {} {}", ty, hex(js.as_bytes())), false);
+        // reading and writing again reproduces the document
+        o.direct(r == format!("ok {}", js), &format!("to_json(from_json(doc))==doc for a non-wire value: {}", what), format!("c19_de {} {}", ty, hex(js.as_bytes())), r.chars().take(60).collect(), "ok <doc>".into());
+        if r.starts_with("ok") { let l = o.ops.last().unwrap().clone(); o.nontrivial.insert(l); }
+        o.stat(&format!("nonwire.{}", what.split(' ').next().unwrap()));
+    }
+    let small = |t: &Transaction| serde_json::to_string(t).map(|s| s.len() < 60_000).unwrap_or(false);
+    let by = |t: RctType| forced.iter().find(|x| x.rct_signatures.sig.as_ref().map(|b| b.rct_type) == Some(t)).cloned().unwrap();
+    let (t_bp2, t_cl, t_bpp, t_simple, t_null, t_v1) = (by(RctType::Bulletproof2), by(RctType::Clsag), by(RctType::BulletproofPlus), by(RctType::Simple), by(RctType::Null), forced[7].clone());
+    { // RctSig { sig: None, p: Some(_) }
+        let mut t = t_cl.clone(); t.rct_signatures.sig = None; nonwire(o, "tx", "sig=None,p=Some", &t); nonwire(o, "rctsig", "sig=None,p=Some (RctSig)", &t.rct_signatures);
+        // Some base, prunable dropped although the type is not Null
+        let mut t = t_bpp.clone(); t.rct_signatures.p = None; nonwire(o, "tx", "p=None with non-Null type", &t);
+        // Null type with a prunable part
+        let mut t = t_null.clone(); t.rct_signatures.p = t_cl.rct_signatures.p.clone(); nonwire(o, "tx", "Null type with prunable", &t);
+        // version 2 carrying v1 signatures; version 1 carrying RingCT data
+        let mut t = t_cl.clone(); t.signatures = t_v1.signatures.clone(); nonwire(o, "tx", "v2 with signatures", &t);
+        let mut t = t_v1.clone(); t.rct_signatures = t_bp2.rct_signatures.clone(); nonwire(o, "tx", "v1 with rct_signatures", &t);
+        let mut t = t_v1.clone(); t.signatures = vec![vec![], vec![Signature { c: gen::key(&mut rng), r: gen::key(&mut rng) }]]; nonwire(o, "tx", "v1 signature rows not matching the rings", &t);
+        // version 0 / huge version, no inputs but RingCT data
+        let mut t = t_bp2.clone(); t.prefix.version = VarInt(*rng.pick(&[0u64, 3, u64::MAX])); nonwire(o, "tx", "version other than 1, 2", &t);
+        let mut t = t_bp2.clone(); t.prefix.inputs.clear(); nonwire(o, "tx", "no inputs with rct_signatures", &t);
+        // prunable with every proof family at once
+        let (a, b, c) = (t_bp2.rct_signatures.p.clone().unwrap(), t_bpp.rct_signatures.p.clone().unwrap(), t_simple.rct_signatures.p.clone().unwrap());
+        let mut p = RctSigPrunable { range_sigs: vec![], bulletproofs: a.bulletproofs.clone(), bulletproofplus: b.bulletproofplus.clone(), MGs: a.MGs.clone(), Clsags: b.Clsags.clone(), pseudo_outs: a.pseudo_outs.clone() };
+        nonwire(o, "prunable", "mixed prunable (bulletproofs+bulletproofplus, MGs+Clsags)", &p);
+        let mut t = t_bp2.clone(); t.rct_signatures.p = Some(p.clone()); nonwire(o, "tx", "mixed prunable inside a transaction", &t);
+        if thorough || small(&t_simple) { p.range_sigs = c.range_sigs.clone(); nonwire(o, "prunable", "mixed prunable with range_sigs", &p); }
+        // base: Null with a fee and entries; both EcdhInfo variants in one list; counts unrelated to the prefix
+        let mut bs = t_bp2.rct_signatures.sig.clone().unwrap();
+        bs.ecdh_info.push(EcdhInfo::Standard { mask: gen::key(&mut rng), amount: gen::key(&mut rng) }); bs.ecdh_info.push(EcdhInfo::Bulletproof { amount: Hash8([9; 8]) }); bs.pseudo_outs = gen::keys(&mut rng, 3);
+        nonwire(o, "base", "base with mixed ecdh variants and pseudo_outs", &bs);
+        bs.rct_type = RctType::Null; bs.txn_fee = Amount::from_pico(u64::MAX); nonwire(o, "base", "Null base with fee u64::MAX and entries", &bs);
+        for ty in gen::RCT_TYPES { let mut b2 = bs.clone(); b2.rct_type = ty; b2.txn_fee = Amount::from_pico(rng.u64_boundary()); nonwire(o, "base", "base of each type with foreign content", &b2); }
+        // a block whose miner transaction is not a miner transaction
+        let mut bl = gen::block(&mut rng, 1); bl.miner_tx = t_cl.clone(); nonwire(o, "block", "block with a non-coinbase miner_tx", &bl);
+        bl.miner_tx.rct_signatures.sig = None; nonwire(o, "block", "block, miner_tx sig=None,p=Some", &bl);
+    }
+
+    // ---- inner RingCT types: documents, fixed probes, valid positional forms
+    let k64 = gen::key64(&mut rng);
+    let k64v = serde_json::to_value(&k64).unwrap();
+    let with_keys = |n: usize| { let mut v = k64v.clone(); let a = v["keys"].as_array_mut().unwrap(); while a.len() > n { a.pop(); } while a.len() < n { let x = a[0].clone(); a.push(x); } serde_json::to_string(&v).unwrap() };
+    for n in [64usize, 63, 65, 0] { let r = o.op(format!("c19_de key64 {}", h(&with_keys(n))), false); ok_nt(o, &r); o.direct(r.starts_with("ok") == (n == 64), "Key64 takes exactly 64 keys", format!("{} keys", n), r.chars().take(10).collect(), if n == 64 { "ok" } else { "err" }.into()); o.stat("de2.key64"); }
+    { let r = o.op(format!("c19_de key64 {}", h(&positional(&with_keys(64)))), false); ok_nt(o, &r); }
+    if let Some(rs) = t_simple.rct_signatures.p.as_ref().and_then(|p| p.range_sigs.first()) {
+        let js = serde_json::to_string(rs).unwrap();
+        let r = o.op(format!("c19_de rangesig {}", h(&js)), false); ok_nt(o, &r);
+        o.direct(r == format!("ok {}", js), "RangeSig document read and written back", "rangesig".into(), r.chars().take(20).collect(), "ok <doc>".into());
+        let r = o.op(format!("c19_de rangesig {}", h(&positional(&js))), false); ok_nt(o, &r);
+        let r = o.op(format!("c19_de rangesig {}", h(&js.replacen("\"Ci\"", "\"ci\"", 1))), false); ok_nt(o, &r);
+        o.stat("de2.rangesig");
+    }
+    let hdr = gen::header(&mut rng);
+    let hj = |nonce: &str| format!("{{\"major_version\":{},\"minor_version\":{},\"timestamp\":{},\"prev_id\":{},\"nonce\":{}}}", hdr.major_version.0, hdr.minor_version.0, hdr.timestamp.0, serde_json::to_string(&hdr.prev_id).unwrap(), nonce);
+    for n in ["0", "4294967295", "4294967296", "-1", "1.0", "\"1\"", "null", "[1]", "18446744073709551616"] { let r = o.op(format!("c19_de header {}", h(&hj(n))), false); ok_nt(o, &r); o.stat("de2.header"); }
+    { let r = o.op(format!("c19_de header {}", h(&positional(&hj("7")))), false); ok_nt(o, &r); o.direct(r.starts_with("ok"), "BlockHeader in positional form (declared order)", positional(&hj("7")), r.clone(), "ok".into()); }
+    let bj = |ty: &str, fee: &str| format!("{{\"rct_type\":{},\"txn_fee\":{},\"pseudo_outs\":[],\"ecdh_info\":[],\"out_pk\":[]}}", ty, fee);
+    for fee in ["0", "7", "\"7\"", "\"0.000000000007\"", "-1", "-0", "18446744073709551615", "18446744073709551616", "1.0", "1e3", "null", "[7]", "{\"amount\":7}", "9223372036854775808"] {
+        let r = o.op(format!("c19_de base {}", h(&bj("\"Clsag\"", fee))), false); ok_nt(o, &r); o.stat("de2.base.fee"); }
+    for ty in ["\"Null\"", "\"Full\"", "\"Simple\"", "\"Bulletproof\"", "\"Bulletproof2\"", "\"Clsag\"", "\"BulletproofPlus\"", "\"BulletproofPlus2\"", "\"null\"", "0", "6", "{\"Clsag\":null}", "{\"Clsag\":{}}", "[\"Clsag\"]", "null", "\"\""] {
+        let r = o.op(format!("c19_de base {}", h(&bj(ty, "1"))), false); ok_nt(o, &r); o.stat("de2.base.type"); }
+    { let r = o.op(format!("c19_de base {}", h(&positional(&bj("\"Simple\"", "5")))), false); ok_nt(o, &r); o.direct(r.starts_with("ok"), "RctSigBase in positional form (declared order)", positional(&bj("\"Simple\"", "5")), r.clone(), "ok".into()); }
+    // every struct type of a real transaction: the document, its positional form (accepted, same value), the positional form one short / one long (refused)
+    let mut structs: Vec<(&'static str, String)> = Vec::new();
+    for t in [&t_bp2, &t_cl, &t_bpp] {
+        if !small(t) { continue; }
+        structs.push(("tx", serde_json::to_string(t).unwrap())); structs.push(("prefix", serde_json::to_string(&t.prefix).unwrap())); structs.push(("rctsig", serde_json::to_string(&t.rct_signatures).unwrap()));
+        let (b, p) = (t.rct_signatures.sig.as_ref().unwrap(), t.rct_signatures.p.as_ref().unwrap());
+        structs.push(("base", serde_json::to_string(b).unwrap())); structs.push(("prunable", serde_json::to_string(p).unwrap()));
+        if let Some(x) = b.out_pk.first() { structs.push(("ctkey", serde_json::to_string(x).unwrap())); }
+        if let Some(x) = p.bulletproofs.first() { structs.push(("bp", serde_json::to_string(x).unwrap())); }
+        if let Some(x) = p.bulletproofplus.first() { structs.push(("bpp", serde_json::to_string(x).unwrap())); }
+        if let Some(x) = p.MGs.first() { structs.push(("mg", serde_json::to_string(x).unwrap())); }
+        if let Some(x) = p.Clsags.first() { structs.push(("clsag", serde_json::to_string(x).unwrap())); }
+        if let Some(x) = t.prefix.outputs.first() { structs.push(("txout", serde_json::to_string(x).unwrap())); }
+    }
+    if let Some(x) = t_v1.signatures.iter().flatten().next() { structs.push(("sig", serde_json::to_string(x).unwrap())); }
+    structs.push(("header", hj("7"))); structs.push(("index", "{\"major\":3,\"minor\":4}".into())); structs.push(("pubkey", format!("{{\"point\":{}}}", k32)));
+    { let bl = gen::block(&mut rng, 2); structs.push(("block", serde_json::to_string(&bl).unwrap())); }
+    for (ty, d) in structs.iter() {
+        let r0 = o.op(format!("c19_de {} {}", ty, h(d)), false); ok_nt(o, &r0);
+        let pos = positional(d);
+        let r1 = o.op(format!("c19_de {} {}", ty, h(&pos)), false); ok_nt(o, &r1);
+        o.direct(r0.starts_with("ok") && r0 == r1, "a struct reads the same from its map form and from its positional form in declared order", format!("c19_de {} {}", ty, h(&pos)), r1.chars().take(40).collect(), r0.chars().take(40).collect());
+        let vs = top_values(d);
+        let short = format!("[{}]", vs[..vs.len() - 1].join(","));
+        let long = format!("[{},null]", vs.join(","));
+        // an Option field at the end (RctSig.p) may be left out of a sequence? serde's derived visit_seq asks for every element: refused
+        o.op(format!("c19_de {} {}", ty, h(&short)), false); o.op(format!("c19_de {} {}", ty, h(&long)), false);
+        o.stat(&format!("de2.struct.{}", ty));
+        if docs.len() < 70 && d.len() < 30_000 && !["tx", "block", "prefix", "rctsig", "txout", "index"].contains(ty) { docs.push((ty, d.clone())); }
+    }
+    // deep nesting: in an ignored (unknown) field and in a typed position
+    let deep = |n: usize| format!("{}1{}", "[".repeat(n), "]".repeat(n));
+    for n in [1usize, 126, 127, 128, 129, 130, 300] {
+        let r = o.op(format!("c19_de index {}", h(&format!("{{\"zz\":{},\"major\":1,\"minor\":2}}", deep(n)))), false); ok_nt(o, &r);
+        let r = o.op(format!("c19_de index {}", h(&format!("{{\"major\":1,\"minor\":2,\"zz\":{{\"a\":{}}}}}", deep(n)))), false); ok_nt(o, &r);
+        o.op(format!("c19_de varint {}", h(&deep(n))), false);
+        o.stat("de2.deep");
+    }
+
+    // ---- the documents of the new types through the mutation machinery
+    for (ty, d) in docs.iter() { let r = o.op(format!("c19_de {} {}", ty, h(d)), false); ok_nt(o, &r); o.stat("de2.valid"); }
+    for _ in 0..(if thorough { 900 } else { 160 }) {
+        let (ty, d) = rng.pick(&docs).clone();
+        let (m, what) = mutate_json(&mut rng, &d);
+        let r = o.op(format!("c19_de {} {}", ty, h(&m)), false); ok_nt(o, &r);
+        o.stat(&format!("de2.mut.{}.{}", what.split(' ').next().unwrap(), if r.starts_with("ok") { "ok" } else { "err" }));
+    }
 }
